@@ -39,6 +39,16 @@ class WithMeta(metaclass=Meta):
     pass
 
 
+class FalsyMeta(type):
+    """Classes of this metaclass evaluate false (a registry-style metaclass with __len__): `cls or default` takes the default."""
+    def __len__(cls):
+        return 0
+
+
+class Falsy(metaclass=FalsyMeta):
+    pass
+
+
 def a_function(x):
     return x
 
